@@ -113,7 +113,7 @@ func (obj *ShapeHmmDataSet) EvaluateLogPdf(edist []MatrixPdf, pool ThreadPool) e
     if xm != c {
       return fmt.Errorf("data has invalid dimension")
     }
-    pool.AddRangeJob(0, n-r, g, func(i int, pool ThreadPool, erf func() error) error {
+    if err := pool.AddRangeJob(0, n-r, g, func(i int, pool ThreadPool, erf func() error) error {
       verifhook.Yield("matrixEstimator.shapeHmm_data.job")
       verifhook.Event("matrixEstimator.shapeHmm_data", i, pool.GetThreadId())
       if erf() != nil {
@@ -135,7 +135,9 @@ func (obj *ShapeHmmDataSet) EvaluateLogPdf(edist []MatrixPdf, pool ThreadPool) e
         return fmt.Errorf("probability is zero for all models on observation `%v'", x)
       }
       return nil
-    })
+    }); err != nil {
+      return fmt.Errorf("evaluating emission probabilities failed: %v", err)
+    }
   }
   verifhook.Yield("matrixEstimator.shapeHmm_data.queued")
   if err := pool.Wait(g); err != nil {
